@@ -878,3 +878,57 @@ package readline
 //@ func (*Shell).viOpenLineBelow
 //@   props C01
 //@   requires fullok(rl)
+
+// fourth batch
+//@ func (*Shell).downCaseWord
+//@   props C01
+//@   terminates
+//@   requires fullok(rl) && core.selinv(rl.selection)
+
+//@ func (*Shell).upCaseWord
+//@   props C01
+//@   terminates
+//@   requires fullok(rl) && core.selinv(rl.selection)
+
+//@ func (*Shell).copyPrevShellWord
+//@   props C01
+//@   terminates
+//@   requires fullok(rl)
+
+//@ func (*Shell).beginningOfBufferOrHistory
+//@   props C01
+//@   terminates
+//@   requires fullok(rl) && histready(rl)
+
+//@ func (*Shell).endOfBufferOrHistory
+//@   props C01
+//@   terminates
+//@   requires fullok(rl) && histready(rl)
+
+//@ func (*Shell).forwardChar
+//@   props C01
+//@   terminates
+//@   requires fullok(rl)
+
+//@ func (*Shell).viDownCase
+//@   props C01
+//@   terminates
+//@   requires fullok(rl) && core.selinv(rl.selection)
+
+//@ func (*Shell).viUpCase
+//@   props C01
+//@   terminates
+//@   requires fullok(rl) && core.selinv(rl.selection)
+
+//@ func (*Shell).quoteLine
+//@   props C01
+//@   terminates
+//@   requires fullok(rl)
+//@   loop 1 invariant fullok0(rl) && len(*rl.line) == old(len(*rl.line)) && clean(*rl.line)
+
+//@ func (*Shell).viPutAfter
+//@   props C01
+//@   terminates
+//@   requires fullok(rl) && editor.regsclean(rl.Buffers)
+//@   loop 1 invariant fullok0(rl) && clean(buffer) && 0 <= pos
+
